@@ -135,12 +135,20 @@ def gen(rng, ctx):
                 if v in o or v == g:
                     continue
                 sym = {"and": "and", "nand": "and", "or": "or", "nor": "or", "xor": "xor", "xnor": "xor"}[tps[g]]
-                if rng.random() < 0.35 and o[0] not in m and "." not in o[0]:
+                if rng.random() < 0.5 and o[0] not in m and "." not in o[0]:
                     # ... and one of the operands has a `$` in its name
                     m[o[0]] = o[0] + "$"
                     m[v] = f"{sym}_{o[0]}$_{o[1]}"
                     kind += "+lookalike_with_dollar"
-                    continue
+                    # the writer emits the operands in set order: further nets carry the temporaries of the other
+                    # operand pairs / orders that involve the renamed operand
+                    others_ = [x for x in preds[g] if x != o[0] and "." not in x]
+                    combos = [f"{sym}_{o[0]}$_{x}" for x in others_] + [f"{sym}_{x}_{o[0]}$" for x in others_]
+                    victims = [x for x in names if x not in m and x != g and x not in preds[g]]
+                    rng.shuffle(victims)
+                    for vv, nm_ in zip(victims, [c_ for c_ in combos if c_ not in m.values()]):
+                        m[vv] = nm_
+                    break
                 m[v] = f"{sym}_{o[0]}_{o[1]}"
                 continue
             m[v] = rng.choice([f"and_{o[0]}_{o[1]}", f"or_{o[0]}_{o[1]}", f"xor_{o[0]}_{o[1]}", f"not_{o[0]}", "g_0", "g_1", f"and_and_{o[0]}_{o[1]}_{v}", "tie0", "tie1", "_w", "W_1"])
